@@ -622,6 +622,17 @@ func (c *FnCtx) specCall(env *SpecEnv, x *ast.CallExpr) *Val {
 				return &Val{T: fmt.Sprintf("((as const %s) %s)", so, arg(1).T), S: so}
 			}
 		}
+	case "refof":
+		// refof(s[i]): the reference of the pseudo-object that holds a struct element of a slice of structs
+		a := arg(0)
+		if a.Box != "" {
+			return &Val{T: a.Box, S: SInt}
+		}
+		if a.S == SInt {
+			return a
+		}
+		c.specErr("refof: not a struct element or reference")
+		return a
 	case "astype":
 		// astype(x, "pkg.Type"): x viewed as a *pkg.Type (ghost sequences and maps hold untyped references)
 		a := arg(0)
